@@ -294,6 +294,11 @@ func (g *gen) execAlloc(x *ssa.Alloc, st *state) {
 	}
 	r := g.newRef(st, sanitize(x.Comment))
 	g.vals[x] = r
+	if types.TypeString(et, nil) == "strings.Builder" {
+		h := g.heapVar(st, sbHeap, sbSort)
+		g.setHeap(st, sbHeap, sbSort, app("store", h, r, "rnil"))
+		return
+	}
 	switch u := et.Underlying().(type) {
 	case *types.Struct:
 		for i := 0; i < u.NumFields(); i++ {
@@ -893,6 +898,8 @@ func (g *gen) execNext(x *ssa.Next, st *state) {
 		g.tuples[x] = []string{ok, k, v}
 		np := g.define(name+"@", "Int", sIte(ok, app("+", pos, "1"), pos))
 		st.heap[name] = np
+		// ghost fact: the runes seen so far (unfolding of prefixRunes at this position)
+		g.assume(sImp(ok, sEq(app("prefixRunes", it.x, app("+", pos, "1")), app("snoc", app("prefixRunes", it.x, pos), v))))
 		return
 	}
 	// map iteration: order and content unconstrained
@@ -906,19 +913,7 @@ func (g *gen) execNext(x *ssa.Next, st *state) {
 	g.note("range over a map in %s: iteration order and content unconstrained", g.vc.Func)
 }
 
-func (g *gen) needRunes() {
-	if g.declared["runeCount"] {
-		return
-	}
-	g.declared["runeCount"] = true
-	g.vc.Decls = append(g.vc.Decls,
-		"(declare-fun runeCount (String) Int)",
-		"(declare-fun runeAt (String Int) Int)",
-		"(declare-fun runeStart (String Int) Int)",
-		"(assert (forall ((s String)) (! (and (>= (runeCount s) 0) (<= (runeCount s) (str.len s))) :pattern ((runeCount s)))))",
-		"(assert (forall ((s String) (k Int)) (! (=> (and (<= 0 k) (< k (runeCount s))) (and (<= 0 (runeAt s k)) (<= (runeAt s k) 1114111) (<= 0 (runeStart s k)) (< (runeStart s k) (str.len s)))) :pattern ((runeAt s k)))))",
-	)
-}
+func (g *gen) needRunes() {}
 
 func (g *gen) rangePos(e *env) string {
 	// the iterator of the innermost enclosing loop that has one
